@@ -3,6 +3,8 @@
 package c19
 
 import (
+	"runtime"
+	"runtime/pprof"
 	"errors"
 	"fmt"
 	"log"
@@ -160,7 +162,15 @@ func judgeAfterError(e *env, fdsBefore []string, what string) string {
 
 // gcOff disables the collector while a case runs: a finalizer would close, and so
 // hide, a leaked *os.File before the descriptor table is inspected.
+var gcOffCalls int
+
 func gcOff() func() {
+	// The collector never gets a chance to start in the short gaps between cases, so garbage
+	// would pile up (10 GB per 20 000 cases): collect explicitly before a case starts, when
+	// nothing of that case exists yet that a finalizer could close.
+	if gcOffCalls++; gcOffCalls%50 == 0 {
+		runtime.GC()
+	}
 	old := debug.SetGCPercent(-1)
 	return func() { debug.SetGCPercent(old) }
 }
@@ -718,4 +728,11 @@ func Run(r *ev.Run) {
 	redirectCases(r)
 	urlCases(r, e)
 	registryCases(r, e)
+	if f := os.Getenv("VERIF_HEAPPROF"); f != "" {
+		runtime.GC()
+		if fh, err := os.Create(f); err == nil {
+			_ = pprof.WriteHeapProfile(fh)
+			fh.Close()
+		}
+	}
 }
